@@ -38,6 +38,7 @@ def base_ns(draw=None, probes=0, hooks=False):
                                            ret='⟦OA.fo⟧')))
     ns = dict(
         va='⟦A⟧', vb='⟦B⟧', vn=7, vz='', vnone=None,
+        vby=dict(t='bytes', v='[BY]'),
         ct=1, cf=0,
         # hyphenated names that end like the variables dtml-in defines
         **{'content-length': '⟦CL⟧', 'page-number': '⟦PN⟧',
